@@ -46,6 +46,8 @@ def dispatchC17 : Dispatch := fun op args =>
   | "c17.u.fmt", [n, r, x] | "c17.b.fmt", [n, r, x] =>
     match n.toNat?, r.toNat?, hexToNat? x with
     | some n, some r, some x =>
+      -- `BoxedUint::from_words` of no words pads to one limb
+      let n := if op == "c17.b.fmt" then max 1 n else n
       let l1 := match encodeToString r (toLimbs n x) with
         | .ok bs => bytesToTok bs
         | .error e => errTok e
@@ -94,8 +96,7 @@ def dispatchC17 : Dispatch := fun op args =>
     match r.toNat?, tokToBytes? s with
     | some r, some s =>
       let l1 := match boxedFromStr r s with
-        -- `bits_vartime` on zero limbs indexes `limbs[len - 1]`: panic
-        | .ok l => if l.isEmpty then "panic" else toString (bitLen (val l))
+        | .ok l => toString (bitLen (val l))
         | .error e => errTok e
       let l0 := if !radixOk r then "panic" else
         match specParse r s with
